@@ -36,21 +36,10 @@ impl E2Part for Children {
     }
 }
 
-pub fn flat_sig(case: &E2Case, outcome: &CaseOutcome) -> Option<String> {
-    let has = |f: &str| case.facts.iter().any(|x| x == f);
+pub fn flat_sig(_case: &E2Case, outcome: &CaseOutcome) -> Option<String> {
+    // all structural signatures this part once had belong to defects that are repaired (known_findings.txt, fixed: lines)
     match outcome {
         CaseOutcome::Rejected(m) if m.contains("panic") => Some("panic-is-C16".into()),
-        CaseOutcome::CompileFail { code, .. } if (code == "E0062" || code == "E0063" || code == "E0560" || code == "E0061") && has("interleaved") => Some("interleaved-children-build-parent-twice".into()),
-        // a child-path ghost (a.b@g) whose intermediate struct has no direct flat member forms a group of its own
-        CaseOutcome::CompileFail { code, .. } if (code == "E0062" || code == "E0063" || code == "E0560" || code == "E0061") && has("child-path-ghosts") => Some("child-path-ghost-builds-parent-twice".into()),
-        // Into fills a tuple-form intermediate struct in o2o's grouping order (direct members first, nested structs after),
-        // not at the positions the index renames / path components designate
-        CaseOutcome::CompileFail { code, .. } if code == "E0308" && has("tuple-node") && (has("interleaved") || has("split-path-groups")) && has("into-requested") => Some("tuple-node-into-order-ignores-designated-indices".into()),
-        CaseOutcome::Mismatch { flavour, .. } if flavour.contains("into") && !flavour.contains("existing") && has("tuple-node") && (has("interleaved") || has("split-path-groups")) => Some("tuple-node-into-order-ignores-designated-indices".into()),
-        // into_existing into a tuple-form intermediate struct writes other.<path>.<running index> (restarting at every
-        // non-contiguous group) instead of the index the member instruction names
-        CaseOutcome::CompileFail { code, .. } if (code == "E0308" || code == "E0609" || code == "E0610") && has("tuple-node") && has("into-existing-requested") => Some("into-existing-tuple-node-ignores-index-rename".into()),
-        CaseOutcome::Mismatch { flavour, .. } if flavour.contains("existing") && has("tuple-node") => Some("into-existing-tuple-node-ignores-index-rename".into()),
         _ => None,
     }
 }
